@@ -9,7 +9,26 @@ open Gen
 
 def MOp.Ok : MOp → Prop
   | .net op => op.Ok
-  | .setAlgorithm => True
+  | .setAlgorithm _ => True
+
+/-- **the hand-over site as read from network.cpp** (`Gen.handOver`): one call `least_squares->min_x(min_n_, min_x_)`, a
+    statement at depth 0 after the list was rebuilt and after the solver's `reset`, before `tst_rov_opr_ = true`: on
+    every run the solver is told the list just built.  Breaks when the call is moved before the rebuild (stale list),
+    guarded, given other arguments or removed. -/
+theorem handCode_eq (prev : Option (List Nat)) (new : List Nat) (held : SList) : handCode prev new held = .given new := rfl
+
+/-- **`set_algorithm` as read from network.cpp** (`Gen.setAlg`): a brand-new object of the class the name selects, told
+    nothing (default list), `update(Points)`.  Breaks when the old object survives on some path, when the new one is fed
+    from it, or when the `update` is missing / conditional / at a higher level. -/
+theorem setAlgCode_eq (m : MState) (name : String) :
+    setAlgGen Gen.setAlg m name
+      = { m with net := update { m.net with cfg := bump m.net.cfg 0 } 0, held := .dflt, cls := classOf Gen.setAlg name } := rfl
+
+/-- the four names and the fall-back of `set_algorithm` (regenerated table) -/
+theorem classOf_table :
+    classOf Gen.setAlg "gso" = "AdjGSO" ∧ classOf Gen.setAlg "svd" = "AdjSVD" ∧ classOf Gen.setAlg "cholesky" = "AdjCholDec"
+    ∧ classOf Gen.setAlg "envelope" = "AdjEnvelope" ∧ classOf Gen.setAlg "" = "AdjEnvelope"
+    ∧ Gen.setAlg.storesName = true := by decide
 
 /-- the list of the current numbering -/
 def curList (inp : MInput) (s : NState) : SList := .given (inp.lst (snap s.cfg 2))
@@ -20,9 +39,11 @@ structure MInv (inp : MInput) (m : MState) : Prop where
   held : m.net.f2 = true → m.held = curList inp m.net
   /-- while the adjustment is valid, it was produced by a solver holding that list -/
   adj : m.net.f3 = true → m.a3list = some (curList inp m.net)
+  /-- … and by the CURRENT solver object's class (`set_algorithm` clears `tst_vyrovnani_`) -/
+  cls : m.net.f3 = true → m.a3cls = some m.cls
 
-theorem minv_init (inp : MInput) (c : Cfg) : MInv inp (minit c) :=
-  ⟨ninv_init c, fun h => by simp [minit, ninit] at h, fun h => by simp [minit, ninit] at h⟩
+theorem minv_init (inp : MInput) (c : Cfg) (cls : String := Gen.setAlg.dflt.2) : MInv inp (minit c cls) :=
+  ⟨ninv_init c, fun h => by simp [minit, ninit] at h, fun h => by simp [minit, ninit] at h, fun h => by simp [minit, ninit] at h⟩
 
 /-- `update` only clears flags -/
 theorem update_flags (s : NState) (l : Nat) (hl : l ≤ 3) :
@@ -120,12 +141,16 @@ theorem nstep_flags (inp : NInput) (hthr : inp.throws = false) {s : NState} (h :
 theorem mstep_inv (inp : MInput) (hthr : inp.net.throws = false) {m : MState} (hi : MInv inp m) (o : MOp) (ho : o.Ok) :
     MInv inp (mstep inp m o).1 := by
   cases o with
-  | setAlgorithm =>
+  | setAlgorithm name =>
     have hn := ninv_change hi.net 0 (by omega)
     have hf := update_flags { m.net with cfg := bump m.net.cfg 0 } 0 (by omega)
-    refine ⟨hn, fun h2 => ?_, fun h3 => ?_⟩
+    show MInv inp (setAlgGen Gen.setAlg m name)
+    rw [setAlgCode_eq]
+    refine ⟨hn, fun h2 => ?_, fun h3 => ?_, fun h3 => ?_⟩
     · have : (update { m.net with cfg := bump m.net.cfg 0 } 0).f2 = true := h2
       rw [hf.2.2.1 (by omega)] at this; cases this
+    · have : (update { m.net with cfg := bump m.net.cfg 0 } 0).f3 = true := h3
+      rw [hf.2.2.2] at this; cases this
     · have : (update { m.net with cfg := bump m.net.cfg 0 } 0).f3 = true := h3
       rw [hf.2.2.2] at this; cases this
   | net op =>
@@ -140,8 +165,8 @@ theorem mstep_inv (inp : MInput) (hthr : inp.net.throws = false) {m : MState} (h
       by_cases h2 : m.net.f2 = true
       · simp [h2, hi.held h2]
       · have h2' : m.net.f2 = false := by simpa using h2
-        simp [h2', hp2, handCode, curList]
-    refine ⟨hs.1, fun h2 => ?_, fun h3 => ?_⟩
+        simp [h2', hp2, handCode_eq, curList]
+    refine ⟨hs.1, fun h2 => ?_, fun h3 => ?_, fun h3 => ?_⟩
     · obtain ⟨hp2, hc⟩ := hf.1 h2
       show (if (!m.net.f2 && (prefixState inp.net m.net op).f2) = true then _ else _) = curList inp (nstep inp.net m.net op).1
       rw [hheld hp2]
@@ -157,6 +182,13 @@ theorem mstep_inv (inp : MInput) (hthr : inp.net.throws = false) {m : MState} (h
         simp only [h3'', Bool.not_false, Bool.true_and, hp3, if_true]
         rw [hheld hp2]
         simp only [curList, hc]
+    · obtain ⟨hp3, _⟩ := hf.2 h3
+      show (if (!m.net.f3 && (prefixState inp.net m.net op).f3) = true then some m.cls else m.a3cls) = some m.cls
+      by_cases h3' : m.net.f3 = true
+      · simp only [h3', Bool.not_true, Bool.false_and, Bool.false_eq_true, if_false]
+        exact hi.cls h3'
+      · have h3'' : m.net.f3 = false := by simpa using h3'
+        simp only [h3'', Bool.not_false, Bool.true_and, hp3, if_true]
 
 theorem mrun_inv (inp : MInput) (hthr : inp.net.throws = false) {m : MState} (hi : MInv inp m) {ops : List MOp}
     (hops : ∀ o ∈ ops, o.Ok) : MInv inp (mrun inp m ops) := by
@@ -166,24 +198,36 @@ theorem mrun_inv (inp : MInput) (hthr : inp.net.throws = false) {m : MState} (hi
     exact ih (mstep_inv inp hthr hi o (hops o (List.mem_cons_self ..)))
       (fun o' ho' => hops o' (List.mem_cons_of_mem _ ho'))
 
-/-- a member that reads the adjustment artefacts reads artefacts of a solver that held the current list -/
+/-- a member that reads the adjustment artefacts reads artefacts of a solver that held the current list and is of the
+    current class -/
 theorem mstep_reads (inp : MInput) (hthr : inp.net.throws = false) {m : MState} (hi : MInv inp m) (op : NOp) (ho : op.Ok)
     (hr : readsAdjustment op = true) :
-    (mstep inp m (.net op)).2.2 = some (curList inp m.net) := by
+    (mstep inp m (.net op)).2.2 = some (curList inp m.net, m.cls) := by
   have hp := prefix_spec inp.net hthr hi.net op ho
   have hp3 := hp.2.2 hr
   have hp2 : (prefixState inp.net m.net op).f2 = true := hp.1.m3 hp3
+  have hl : (if (!m.net.f3 && (prefixState inp.net m.net op).f3) = true then
+        some (if (!m.net.f2 && (prefixState inp.net m.net op).f2) = true
+          then handCode m.netList (inp.lst (snap m.net.cfg 2)) m.held else m.held) else m.a3list) = some (curList inp m.net) := by
+    by_cases h3 : m.net.f3 = true
+    · simp only [h3, Bool.not_true, Bool.false_and, Bool.false_eq_true, if_false]
+      exact hi.adj h3
+    · have h3' : m.net.f3 = false := by simpa using h3
+      simp only [h3', Bool.not_false, Bool.true_and, hp3, if_true]
+      by_cases h2 : m.net.f2 = true
+      · simp [h2, hi.held h2]
+      · have h2' : m.net.f2 = false := by simpa using h2
+        simp [h2', hp2, handCode_eq, curList]
+  have hc : (if (!m.net.f3 && (prefixState inp.net m.net op).f3) = true then some m.cls else m.a3cls) = some m.cls := by
+    by_cases h3 : m.net.f3 = true
+    · simp only [h3, Bool.not_true, Bool.false_and, Bool.false_eq_true, if_false]
+      exact hi.cls h3
+    · have h3' : m.net.f3 = false := by simpa using h3
+      simp only [h3', Bool.not_false, Bool.true_and, hp3, if_true]
   show (if readsAdjustment op = true then
-          (if (!m.net.f3 && (prefixState inp.net m.net op).f3) = true then some _ else m.a3list) else none) = _
-  rw [if_pos hr]
-  by_cases h3 : m.net.f3 = true
-  · simp only [h3, Bool.not_true, Bool.false_and, Bool.false_eq_true, if_false]
-    exact hi.adj h3
-  · have h3' : m.net.f3 = false := by simpa using h3
-    simp only [h3', Bool.not_false, Bool.true_and, hp3, if_true]
-    by_cases h2 : m.net.f2 = true
-    · simp [h2, hi.held h2]
-    · have h2' : m.net.f2 = false := by simpa using h2
-      simp [h2', hp2, handCode, curList]
+          (match (if (!m.net.f3 && (prefixState inp.net m.net op).f3) = true then some _ else m.a3list),
+                 (if (!m.net.f3 && (prefixState inp.net m.net op).f3) = true then some m.cls else m.a3cls) with
+            | some l, some c => some (l, c) | _, _ => none) else none) = _
+  rw [if_pos hr, hl, hc]
 
 end Gama.C04.Net
